@@ -480,8 +480,20 @@ func (p *untypedParamBinder) setSliceFieldValue(target reflect.Value, defaultVal
 		return nil
 	}
 	if sz == 0 {
-		target.Set(defVal)
-		return nil
+		if defaultValue == nil || defVal.Type().AssignableTo(target.Type()) {
+			target.Set(defVal)
+			return nil
+		}
+		// a default from the description document is decoded as []interface{}:
+		// bind its items the way request values are bound
+		if defVal.Kind() != reflect.Slice {
+			return errors.InvalidType(p.Name, p.parameter.In, typeArray, defaultValue)
+		}
+		data = make([]string, defVal.Len())
+		for i := range data {
+			data[i] = fmt.Sprint(defVal.Index(i).Interface())
+		}
+		sz = len(data)
 	}
 
 	value := reflect.MakeSlice(reflect.SliceOf(target.Type().Elem()), sz, sz)
